@@ -6,6 +6,7 @@
 //
 //	lock w|r      start Lock(ctx) with a fresh context in its own goroutine
 //	trylock w|r   TryLock, synchronously
+//	atrylock w|r  TryLock from a new goroutine (races the critical sections of other calls)
 //	release i     call the release function of lock step i (skipped unless it returned one)
 //	arelease i    the same from a new goroutine
 //	cancel i      cancel the context of lock step i
@@ -47,7 +48,7 @@ func exec(rw bool) func(script []string, opt comp.Options) comp.Result {
 	return func(script []string, opt comp.Options) comp.Result {
 		log := hist.New()
 		tags := comp.TagSet{}
-		h := hook.Install(opt.Seed, hook.Perturb{Prob: 0.35, MaxSleep: 150 * time.Microsecond})
+		h := hook.Install(opt.Seed, hook.Perturb{Prob: 0.4, MaxSleep: 200 * time.Microsecond})
 		defer h.Uninstall()
 		rng := rand.New(rand.NewSource(opt.Seed ^ 0x5eed))
 
@@ -101,19 +102,27 @@ func exec(rw bool) func(script []string, opt comp.Options) comp.Result {
 					c.rel = rel
 					c.mu.Unlock()
 				}()
-			case "trylock":
+			case "trylock", "atrylock":
 				w, ms := mode(f[1])
 				c := &lockCall{cancel: func() {}}
 				c.id = log.Inv("trylock %s", ms)
 				calls = append(calls, c)
-				rel, ok := trylock(w)
-				if ok {
-					log.Ret(c.id, "trylock true %s", ms)
-					c.mu.Lock()
-					c.rel = rel
-					c.mu.Unlock()
+				do := func() {
+					rel, ok := trylock(w)
+					if ok {
+						log.Ret(c.id, "trylock true %s", ms)
+						c.mu.Lock()
+						c.rel = rel
+						c.mu.Unlock()
+					} else {
+						log.Ret(c.id, "trylock false")
+					}
+				}
+				if f[0] == "trylock" {
+					do()
 				} else {
-					log.Ret(c.id, "trylock false")
+					wg.Add(1)
+					go func() { defer wg.Done(); do() }()
 				}
 			case "release", "arelease":
 				i, _ := strconv.Atoi(f[1])
@@ -182,7 +191,7 @@ func exec(rw bool) func(script []string, opt comp.Options) comp.Result {
 
 func gen(rw bool) func(rng *rand.Rand, tier string) []string {
 	return func(rng *rand.Rand, tier string) []string {
-		maxLocks, steps := 5, 10+rng.Intn(16)
+		maxLocks, steps := 6, 10+rng.Intn(16)
 		if tier == "thorough" {
 			maxLocks, steps = 8, 15+rng.Intn(40)
 		}
@@ -200,8 +209,11 @@ func gen(rw bool) func(rng *rand.Rand, tier string) []string {
 			case r < 25 && nlocks < maxLocks:
 				out = append(out, "lock "+m())
 				nlocks++
-			case r < 33 && nlocks < maxLocks:
+			case r < 30 && nlocks < maxLocks:
 				out = append(out, "trylock "+m())
+				nlocks++
+			case r < 35 && nlocks < maxLocks:
+				out = append(out, "atrylock "+m())
 				nlocks++
 			case r < 55 && nlocks > 0:
 				out = append(out, fmt.Sprintf("release %d", rng.Intn(nlocks)))
@@ -235,6 +247,9 @@ func init() {
 			{"lock r", "settle", "lock w", "settle", "lock r", "settle", "cancel 1", "quiesce", "release 0", "quiesce", "release 2", "quiesce"},
 			// hand-off with double release
 			{"lock w", "settle", "lock w", "lock w", "settle", "release 0", "release 0", "settle", "release 0", "quiesce", "release 1", "release 2", "settle", "release 1", "release 2", "quiesce"},
+			// TryLock racing the critical sections of other calls
+			{"lock r", "atrylock w", "atrylock w", "arelease 0", "atrylock r", "atrylock w", "settle", "atrylock w", "lock r", "atrylock w", "quiesce"},
+			{"atrylock w", "atrylock w", "atrylock r", "atrylock w", "atrylock r", "settle", "atrylock r", "atrylock w", "lock w", "atrylock w", "quiesce"},
 			// reader crowd, then writer, trylocks in between
 			{"lock r", "lock r", "trylock r", "trylock w", "lock w", "settle", "trylock r", "release 0", "release 1", "release 2", "quiesce", "release 4", "quiesce"},
 		},
@@ -244,6 +259,7 @@ func init() {
 		Corpus: [][]string{
 			{"lock w", "settle", "lock w", "lock w", "settle", "cancel 1", "release 0", "release 0", "quiesce", "release 2", "quiesce"},
 			{"trylock w", "trylock w", "lock w", "settle", "release 0", "settle", "trylock w", "release 2", "release 0", "quiesce"},
+			{"atrylock w", "atrylock w", "atrylock w", "lock w", "atrylock w", "settle", "arelease 0", "atrylock w", "atrylock w", "quiesce"},
 		},
 	})
 }
